@@ -177,6 +177,11 @@ def check(ctx):
     ctx.cov["pool_concurrency_runs"] = len(pool_runs)
     if not any(v["kind"].startswith("pool-concurrent") for v in ctx.violations):
         # the same question with the schedule forced: Get / Put while the janitor pass is inside a slow Close
+        rc, out = c12.run_workload(ctx, binary, "TestVerifShutdownWindow", {})
+        cls = c12.classify(rc, out)
+        if cls:
+            C.violation(ctx, "pool-concurrent-" + cls[0], {"what": "connections handed back while Shutdown is closing an idle one: " + cls[0],
+                                                          "test": "TestVerifShutdownWindow", "report": cls[1]})
         rc, out = c12.run_workload(ctx, binary, "TestVerifCleanupWindow", {})
         cls = c12.classify(rc, out)
         if cls:
